@@ -10,7 +10,7 @@
 //!   sig.from_compact bytes              -> OK:<r>;<s>;<hdr>
 //!   sig.recover compact msg hash        -> OK:<pubkey> | OK:E   from_compact_bytes (Err -> ERR), recover_public_key
 //!   sig.recover_digest compact digest   -> OK:<pubkey> | OK:E
-//!   sig.sign_recover key comp msg hash rk msg2 hash2 -> OK:<pubkey>;<same> | OK:E
+//!   sig.sign_recover key comp msg hash rk msg2 hash2 -> OK:<same>;<pubkey> | OK:E
 //!        sign_with_deterministic_k, to_compact_bytes(None), from_compact_bytes, recover_public_key(msg2, hash2);
 //!        same = 1 when the recovered key's bytes equal the signer's to_public_key() bytes
 //!   sighashsig.roundtrip r s flag       -> OK:<bytes>;<bytes'>  SighashSignature::new(..).to_bytes, from_bytes, to_bytes again
@@ -144,7 +144,7 @@ pub fn run(op: &str, args: &[String]) -> Option<String> {
             match back.recover_public_key(&msg2, h2) {
                 Ok(p) => {
                     let pb = okk!(p.to_bytes());
-                    format!("OK:{};{}", show_bytes(&pb), (pb == own) as u8)
+                    format!("OK:{};{}", (pb == own) as u8, show_bytes(&pb))
                 }
                 Err(_) => "OK:E".into(),
             }
